@@ -26,7 +26,12 @@ CHECKS.update({
 })
 CHECKS['C13'] = ('For EVERY ASCII file name up to the length bound at every directory depth up to the bound, the candidate list produced by the real possible_do_files / DefaultDoFiles / RecursiveDoFilesState / path_splits MIR equals the order written in the property statement (do_dir, do_file, $2 base name, matched extension), and do_dir/(base_name+ext) is the target; find_do_file probes candidates in that order, stops at the first existing one, records an m-edge on it and a c-edge on every earlier candidate. The argv/$3/cwd construction inside start_self and redo-whichdo\'s printing are not yet encoded.',
   'Targets absolute and lexically clean; non-ASCII names outside the alphabet; ouroboros plumbing stubbed. ' + TRUST, 'DESIGN.md §5 C13')
+CHECKS['C18'] = ('Record codec only: for EVERY kind / text / target name up to the length bound (every ASCII byte symbolic) and every pid / exit status (symbolic i32), Meta::parse(format(m)) returns the same kind, pid and text (including texts that look like structured records), parse rejects strings with a newline, parse_done_text inverts the "done" text for names with spaces, is_valid_log_line accepts exactly lines with one newline at the end, and log::clean_line output is always a valid line - all on the real MIR of logs.rs / log.rs. That every stderr line of every script appears once, in order, under its target at any -j (the log follower racing with writers) is NOT claimed.',
+  'Integer and float formatting are opaque tokens with an injectivity axiom. ' + TRUST, 'DESIGN.md §5 C18')
 NA = {
+ 'C06': 'Mutual exclusion of .do executions is a statement about interleavings of independent OS processes over kernel fcntl() range locks and SQLite transactions; no function of this crate decides it in isolation, so there is nothing for a bounded symbolic execution of the real code to be run on (a hand-written process model would be a different technique). The encodable fragments are checked elsewhere: REDO_UNLOCKED is only used for the lock the caller holds (C01/C03 orchestration obligation), Lock::try_lock/wait_lock consult the cycle detector first (C12).',
+ 'C07': 'Quantifies over process schedules, -j and script durations inside builder::run (a 3500-line lowered coroutine driving FuturesUnordered and child processes) and compares outcomes with the serial build; the engine executes single-process MIR paths, not schedules of several processes. The single-process kernel facts it relies on (built in this run => Clean, checked in this run => answered without stat) are decided under C02/C14.',
+ 'C16': 'The failure mode is SQLite\'s busy/locked protocol between processes (bundled C code + kernel file locks); the Rust side only chooses the transaction mode. Whether those choices avoid SQLITE_BUSY is a statement about SQLite\'s semantics and OS scheduling, not about code that can be executed symbolically here.',
 }
 man = {
  'version': 1,
